@@ -1865,7 +1865,8 @@ func (this *decodingTask) decode(res *decodingTaskResult) {
 
 	// After completion of the bitstream reading, increment the block id.
 	// It unblocks the task processing the next block (if any)
-	atomic.StoreInt32(this.processedBlockID, this.currentBlockID)
+	// Do not overwrite a cancellation requested by a failed task.
+	atomic.CompareAndSwapInt32(this.processedBlockID, this.currentBlockID-1, this.currentBlockID)
 
 	// Check if the block must be skipped
 	if v, hasKey := this.ctx["from"]; hasKey {
